@@ -63,7 +63,7 @@ func c07bindings() []c07binding {
 		}
 		return t
 	}
-	for _, f := range []float64{1.5, -2.5, 0, 1e21, 0.0000001} {
+	for _, f := range []float64{1.5, -2.5, 0, 1e21, 0.0000001, 3.141592653589793, 16777217, 0.1, 1.7976931348623157e308} {
 		f := f
 		add(fmt.Sprintf("float %v", f), func() interface{} { return f }, true, gram.NUM, fl(f))
 	}
